@@ -706,8 +706,8 @@ theorem workspaceSymbolHits_node {j : Journal} {h : Hit} (hh : h ∈ workspaceSy
 /-- Guard of a located element.  Payee estimates, the two halves of a tag and the `nameRange`s of
     definition / references / rename / workspace symbols are computed by column arithmetic, not
     stored in the tree: the guard asks that the computed rune columns be positions of the text
-    (this is what fails when a code, extra blanks or `payee | note` surround the payee, non-ASCII
-    text precedes a tag, or a directive's commodity is quoted).  Every other element carries a
+    (this is what fails when a code, extra blanks or `payee | note` surround the payee, or a
+    directive's commodity is quoted).  Every other element carries a
     range of the tree and only needs an End.  Nothing is asked about the characters that
     precede the range. -/
 def hitGuard (doc : Txt) (h : Hit) : Bool :=
